@@ -67,6 +67,7 @@ static void mode_ctl(void){
       for(int i=0;i<R_N;i++) if(i!=rr&&after.v[i]!=before.v[i]){ vc_viol("ctl:side-effect","%s changed OPUS_GET_%s from %d to %d",last,rq[i].name,before.v[i],after.v[i]); break; } }
     else { if(rc==OPUS_OK){ vc_viol("ctl:illegal-accepted","%s accepted (getter now %d)",last,after.v[rr]); continue; } if(rc!=OPUS_BAD_ARG) vc_viol("ctl:wrong-error","%s: documented error is OPUS_BAD_ARG",last); int d=snap_diff(&before,&after); if(d) vc_viol("ctl:rejected-changed-state","%s was rejected but OPUS_GET_%s changed from %d to %d",last,d<=R_N?rq[d-1].name:"?",d<=R_N?before.v[d-1]:0,d<=R_N?after.v[d-1]:0); else vc_count("ctl_illegal_refused",1); }
     vc_sig3(rr,(uint64_t)lg|((uint64_t)(encoded>0)<<1)|((uint64_t)ch<<2),(uint64_t)(v<0?0:v<3?1:v<1000?2:3));
+    if(step==60&&vc_want_sample()) vc_sample("{\"mode\":\"ctl\",\"Fs\":%d,\"ch\":%d,\"app\":%d,\"frames_encoded_so_far\":%d,\"call\":\"%s\",\"legal\":%d,\"getter_after\":%d}",Fs,ch,app,encoded,last,lg,after.v[rr]);
   }
   opus_encoder_destroy(e);
   /* decoder */
@@ -174,6 +175,7 @@ static void mode_honour(void){
       int nl=nyq; if(mode==2&&nl==1) nl=2; if(eff>nl){ vc_viol("honour:bandwidth-exceeds-nyquist","packet bandwidth %d at input rate %d Hz (toc %02x mode %d)",bw,Fs,toc,mode); break; } vc_count("honour_bandwidth_ok",1); }
     /* MDCT-only */
     if((app==OPUS_APPLICATION_RESTRICTED_LOWDELAY||fs<Fs/100)&&mode!=2){ vc_viol("honour:mdct-only","%s packet in mode %d (toc %02x, frame %d samples at %d Hz, application %d)",fs<Fs/100?"sub-10ms":"low-delay",mode,toc,fs,Fs,app); break; }
+    if(k==nf/2&&vc_want_sample()) vc_sample("{\"mode\":\"honour\",\"Fs\":%d,\"ch\":%d,\"app\":%d,\"forced_bandwidth\":%d,\"max_bandwidth\":%d,\"forced_channels\":%d,\"expert\":%d,\"packet\":%d,\"toc\":%d,\"len\":%d}",Fs,ch,app,forced_bw,max_bw,fc,expert,k,toc,len);
     vc_sig3((uint64_t)(toc>>2)|((uint64_t)(fc==OPUS_AUTO?0:fc)<<6),(uint64_t)(forced_bw==OPUS_AUTO?9:bw_rank(forced_bw))|((uint64_t)bw_rank(max_bw)<<4)|((uint64_t)nyq<<8),(uint64_t)app|((uint64_t)expert<<12));
   }
   opus_encoder_destroy(e);
